@@ -4,6 +4,7 @@ From Zeno Require Import Base Sort Expr ExprSpec ExprP Seq Store StoreExprP DB.
 From Zeno Require Pin PinP PinSrc Facts TiePin.
 From Zeno Require Tree TreeP.
 From Zeno Require TieTree.
+From Zeno Require RowCodec RowCodecP TieRow.
 Local Open Scope Z_scope.
 
 (* two histories with the same inserts in the same order, split between memory and disk by ANY flushes
@@ -88,6 +89,15 @@ Proof. exact TreeP.iterate_each_key_once. Qed.
 Theorem C03_tree_source_as_modelled : TieTree.tree_source_as_modelled.
 Proof. exact TieTree.tree_source_as_modelled_holds. Qed.
 
+(* what a flush writes for a row is what a scan of the file reads back (Model/RowCodec.v: rowLength, key length, key,
+   column count, column lengths, columns), and the scan is left at the start of the next row — for every key shorter
+   than 2^16 bytes, fewer than 2^16 columns and columns shorter than 2^64 bytes; the format is the one doWrite uses on this run *)
+Theorem C03_row_written_is_row_read : forall key cols after, RowCodecP.fits key cols ->
+  RowCodec.decode_row (RowCodec.encode_row key cols ++ after) = Some (key, cols, after).
+Proof. exact RowCodecP.row_roundtrip. Qed.
+Theorem C03_row_format_as_modelled : TieRow.row_format_as_modelled.
+Proof. exact TieRow.row_format_as_modelled_holds. Qed.
+
 Print Assumptions C03_schedule_independent.
 Print Assumptions C03_disk_equals_mem_after_flush.
 Print Assumptions C03_split_anywhere.
@@ -98,3 +108,5 @@ Print Assumptions C03_remover_sees_scan_registrations.
 Print Assumptions C03_tree_remove.
 Print Assumptions C03_tree_iterate_each_key_once.
 Print Assumptions C03_tree_source_as_modelled.
+Print Assumptions C03_row_written_is_row_read.
+Print Assumptions C03_row_format_as_modelled.
